@@ -153,11 +153,18 @@ def run_task(task, acc):
         run_cases(acc, gen(), check_case)
     elif kind == "roc_long":
         def gen():
-            x = alpha.debruijn(SIGMA, 4) * 3
-            gaps = [GAPS[(i * 7 + i // 5) % 4] for i in range(len(x) - 1)]
-            for carrier in ("dt64", "epoch"):
-                for thr in THR:
-                    yield dict(fn="roc", x=list(x), gaps=gaps, carrier=carrier, thr=thr)
+            for x in (alpha.debruijn(SIGMA, 4) * 3, alpha.xl(SIGMA)):
+                gaps = [GAPS[(i * 7 + i // 5) % 4] for i in range(len(x) - 1)]
+                for carrier in ("dt64", "epoch"):
+                    for thr in THR:
+                        yield dict(fn="roc", x=list(x), gaps=gaps, carrier=carrier, thr=thr)
+            # long tracks for speed_test: every ordered pair of positions as a hop; thresholds on / around observed speeds
+            for track in ([list(p) for p in alpha.debruijn(tuple(POS), 2)], [list(p) for p in alpha.xl(tuple(POS), 2600, 2)]):
+                gaps = [SGAPS[(i * 3 + i // 7) % 2] for i in range(len(track) - 1)]
+                th = thresholds_for(track[:40], gaps[:39])
+                for s_ in th[::3]:
+                    for f_ in th[1::4]:
+                        yield dict(fn="speed", track=track, gaps=gaps, carrier="dt64", suspect=s_, fail=f_)
         run_cases(acc, gen(), check_case)
     elif kind == "roc_len":
         def gen():
